@@ -452,6 +452,26 @@ func strOrErr(s string, err error) string {
 	return show(s)
 }
 
+// the export option OmitPrefix (the only field of BMNumberConfig; `bmnumbers -omit-prefix`):
+// op=<text with the option>  ort=<re-import of ShowPrefix() + that text>
+func omitFields(n *bmnumbers.BMNumber) string {
+	return common.Guard(func() string {
+		t := bmnumbers.GetType(n.GetTypeName())
+		if t == nil {
+			return "op=? ort=no-type"
+		}
+		o, err := n.ExportString(&bmnumbers.BMNumberConfig{OmitPrefix: true})
+		if err != nil {
+			return "op=!err ort=-"
+		}
+		m, st := importG(t.ShowPrefix() + o)
+		if m == nil {
+			return fmt.Sprintf("op=%s ort=%s", show(o), st)
+		}
+		return fmt.Sprintf("op=%s ort=ok orty=%s orbits=%s orbytes=%s", show(o), m.GetTypeName(), bitsOf(m), leBytes(m))
+	})
+}
+
 func caseLine(s string, ns []int) string {
 	h := hx(s)
 	n, st := importG(s)
@@ -484,6 +504,7 @@ func caseLine(s string, ns []int) string {
 				fmt.Fprintf(&sb, " rt=ok rty=%s rbits=%s rbytes=%s", m.GetTypeName(), bitsOf(m), leBytes(m))
 			}
 		}
+		sb.WriteString(" " + omitFields(n))
 		return sb.String()
 	})
 }
@@ -721,7 +742,7 @@ func floatCase(family, lit string) {
 			return fmt.Sprintf("rt-FAIL %s ty=%s bits=%s bytes=%s es=%s rty=%s rbits=%s rbytes=%s", wok, n.GetTypeName(), bitsOf(n),
 				leBytes(n), show(es), m.GetTypeName(), bitsOf(m), leBytes(m))
 		}
-		return fmt.Sprintf("rt-ok %s ty=%s bits=%s bytes=%s es=%s", wok, n.GetTypeName(), bitsOf(n), leBytes(n), show(es))
+		return fmt.Sprintf("rt-ok %s ty=%s bits=%s bytes=%s es=%s %s", wok, n.GetTypeName(), bitsOf(n), leBytes(n), show(es), omitFields(n))
 	})
 	out.Line("F %s %s %s", family, show(lit), res)
 }
@@ -858,7 +879,8 @@ func cmdFloats(n int) {
 		}
 	}
 	special := []string{"0", "-0", "1", "-1", "0.5", "1.5", "65504", "65520", "6.1e-5", "5.96e-8", "1e-30", "1e-40", "1e-46", "3.4028235e38",
-		"3.5e38", "inf", "-inf", "+Inf", "NaN", "1e-21", "4e-4", "0.1", "1e10", "16777217", "1_0", "0x1p-2", ".5", "5."}
+		"3.5e38", "inf", "-inf", "+Inf", "NaN", "1e-21", "4e-4", "0.1", "1e10", "16777217", "1_0", "0x1p-2", ".5", "5.",
+		"32.5", "300", "2", "3", "6", "16", "4.5", "8", "0.25", "23", "61", "3232", "1616.5"} // values starting with characters of the type prefixes (OmitPrefix)
 	for _, s := range special {
 		floatCase("float32", "0f"+s)
 		floatCase("float32", "0f<32>"+s)
@@ -939,6 +961,7 @@ func valueLine(n *bmnumbers.BMNumber) string {
 		} else {
 			fmt.Fprintf(&sb, " rt=ok rty=%s rbits=%s rbytes=%s", m.GetTypeName(), bitsOf(m), leBytes(m))
 		}
+		sb.WriteString(" " + omitFields(n))
 		return sb.String()
 	})
 }
